@@ -216,6 +216,26 @@ func hsMutations(reqPT byte, suite ref.Suite, reduced bool) []hsMut {
 			return append([]byte{}, d[:cut]...)
 		}})
 	}
+	// the honest payload in a wrapper that claims to be authenticated and carries
+	// an integrity trailer with a junk AuthCode: handshake payloads are never
+	// authenticated, and nothing could vouch for this one (sticky like the others,
+	// so no good copy ever arrives)
+	for _, n := range []int{12, 16} {
+		n := n
+		ms = append(ms, hsMut{name: fmt.Sprintf("%s-wrapper-claims-authenticated-junk-code-%d", pfx, n), class: "mustfail", datagram: func(d []byte) []byte {
+			if len(d) < 16 {
+				return d
+			}
+			out := append([]byte{}, d...)
+			out[5] |= 0x40
+			pad := (4 - (len(out)-4+2)%4) % 4
+			for i := 0; i < pad; i++ {
+				out = append(out, 0xFF)
+			}
+			out = append(out, byte(pad), 0x07)
+			return append(out, pattern(n, 0x5A, 3)...)
+		}})
+	}
 	return ms
 }
 
